@@ -423,7 +423,9 @@ def verify_config(contract, cfg, both=False, z3_timeout=None):
                 stored.add(n.id)
             if isinstance(n, (ast.FunctionDef, ast.ClassDef)):
                 stored.add(n.name)
-        extra = sorted(x for x in stored - allowed if not x.startswith('_parse_function_'))
+        # names starting with an underscore are the generator's private name space (disjointness from USER names is C20's obligation);
+        # the protocol inputs may never be assigned
+        extra = sorted(x for x in stored - allowed if not x.startswith('_') or x in ('_text', '_ctx'))
         res.ground.append(('G-frame', not extra, f'stores outside frame: {extra}' if extra else 'ok'))
         loops = contract.loops(cx)
         ex = Exec(tree, loops)
